@@ -31,24 +31,44 @@ import (
 // Timing constants. None of them is a correctness signal on its own: a
 // violation needs a state that did not move over quietWindow, then a canary
 // round trip through the same push path, then a further re-read.
+// Pseudo slots: the canary document (collection Probe) and, for branchable collections, the
+// collection-level commit DAG of Users (DocID "" in update events, retry records and merges).
+const (
+	canarySlot = -1
+	colSlot    = -100
+)
+
 const (
 	pushTimeout    = 2 * time.Second
 	pollEvery      = 100 * time.Millisecond
-	quietWindow    = pushTimeout + 6*time.Second  // suspicious state must be frozen this long
-	rereadDelay    = pushTimeout + 3*time.Second  // after the canary arrived
-	eventualBudget = 90 * time.Second             // bounded eventuality deadline
-	stallWindow    = 30 * time.Second             // retry record frozen this long with B up = no attempts are made
-	canaryBudget   = 60 * time.Second
+	quietWindow    = pushTimeout + 6*time.Second // suspicious state must be frozen this long
+	rereadDelay    = pushTimeout + 3*time.Second // after the canary arrived
+	eventualBudget = 90 * time.Second            // bounded eventuality deadline
+	stallWindow    = 30 * time.Second            // retry record frozen this long with B up = no attempts are made
+	canaryBudget   = 25 * time.Second
 	waitWriteMax   = 20 * time.Second // paced write: stop waiting (not an oracle)
 	maxTickLate    = 1 * time.Second  // a poll that late means the machine stalled: windows restart
 	flapBudget     = 150 * time.Second
+	// ineffectiveRounds retry rounds without any change to what is pending (plus canary, plus 2 rounds)
+	ineffectiveRounds = 5
 )
+
+const sigPubSubOff = "C15/obligation-lost/replicator-never-pushes-when-pubsub-disabled"
+
+const sigCollectionRetry = "C15/retry-ineffective/collection-level-commit-record-has-no-doc-id"
 
 func init() {
 	net.PushTimeout = pushTimeout
 	if os.Getenv("C15_LOG") == "" {
-		// push failures against a closed peer are logged at error level: hundreds of lines per case
-		corelog.SetConfig(corelog.Config{Level: "fatal", Output: "stderr", Format: "text"})
+		// Push failures against a closed peer are logged at error level, hundreds of lines per
+		// case, and corelog has no level above error. It resolves os.Stderr at every record, so
+		// pointing the variable at /dev/null silences it (the runtime and the test framework do
+		// not use the variable). C15_LOG=1 keeps the log (info level) for diagnosis.
+		if f, err := os.OpenFile(os.DevNull, os.O_WRONLY, 0); err == nil {
+			os.Stderr = f
+		}
+	} else {
+		corelog.SetConfig(corelog.Config{Level: "info", Output: "stderr", Format: "text"})
 	}
 }
 
@@ -126,11 +146,11 @@ func newKey() []byte {
 	return priv
 }
 
-func bootPeerNode(name string, bootstrap ...string) *pnode {
+func bootPeerNode(name string, pubsub bool, bootstrap ...string) *pnode {
 	p := &pnode{name: name, key: newKey()}
 	p.netOpts = []netConfig.NodeOpt{
 		netConfig.WithEnableRelay(false),
-		netConfig.WithEnablePubSub(true),
+		netConfig.WithEnablePubSub(pubsub),
 		netConfig.WithPrivateKey(p.key),
 		netConfig.WithRetryInterval(retryIntervals),
 	}
@@ -278,36 +298,49 @@ type mdoc struct {
 	c       int
 	cSet    bool
 	e       *string
+	g       *string
 	deleted bool
-	// everRetry: a retry-doc record was observed for this document at some time
-	everRetry bool
+	// exempt: deleted on A before the replicator was configured. SetReplicator pushes the heads
+	// of the documents GetAllDocIDs lists, which leaves deleted ones out; the property's
+	// obligation starts with the replicator, so such a document is not required on B.
+	exempt bool
 }
 
 type world struct {
-	c      Case
-	tr     *trace
-	info   *runInfo
-	a, b   *pnode
-	atap   *hx.EventTap
-	btap   *mergeTap
-	docs   map[int]*mdoc // by slot; slot -1 is the canary
-	order  []int
-	patchd bool
-	repSet bool
-	root   string // collection id (schema root)
-	seq    int
+	c                  Case
+	tr                 *trace
+	info               *runInfo
+	a, b               *pnode
+	atap               *hx.EventTap
+	btap               *mergeTap
+	docs               map[int]*mdoc // by slot; slot -1 is the canary
+	order              []int
+	aPatches, bPatches int
+	// unevenPatch: some patch was applied to A only; B may have merged commits whose new field it did not know
+	unevenPatch bool
+	repSet      bool
+	root        string // collection id (schema root)
+	seq         int
+	retryMu     sync.Mutex
+	retrySeen   map[string]bool
 	// bView is the main goroutine's view of B's peer for the trace: up, down or changing
 	bView string
 }
 
-const patchJSON = `[{ "op": "add", "path": "/Users/Fields/-", "value": {"Name": "e", "Kind": 11} }]`
+var patchFields = []string{"e", "g"}
+
+func patchJSON(field string) string {
+	return `[{ "op": "add", "path": "/Users/Fields/-", "value": {"Name": "` + field + `", "Kind": 11} }]`
+}
 
 func (w *world) sdl() string {
 	br := ""
 	if w.c.Branchable {
 		br = " @branchable"
 	}
-	return "type Users" + br + " { name: String  n: Int  c: Int @crdt(type: pncounter) }"
+	// Probe holds the canary document: replicated by the same replicator over the same
+	// connection, but outside the collection under test (a canary write must not repair it).
+	return "type Users" + br + " { name: String  n: Int  c: Int @crdt(type: pncounter) }\ntype Probe { n: Int }"
 }
 
 func (w *world) mustExec(n *pnode, q string) hx.Result {
@@ -339,7 +372,7 @@ func (w *world) write(wr Write) int {
 		return -2
 	}
 	f := wr.F
-	if f == "e" && !w.patchd {
+	if (f == "e" && w.aPatches < 1) || (f == "g" && w.aPatches < 2) {
 		f = "n"
 	}
 	switch f {
@@ -354,6 +387,10 @@ func (w *world) write(wr Write) int {
 		s := fmt.Sprintf("e%d", wr.V)
 		w.mustExec(w.a, fmt.Sprintf(`mutation { update_Users(docID: %q, input: {e: %q}) { _docID } }`, d.id, s))
 		d.e = &s
+	case "g":
+		s := fmt.Sprintf("g%d", wr.V)
+		w.mustExec(w.a, fmt.Sprintf(`mutation { update_Users(docID: %q, input: {g: %q}) { _docID } }`, d.id, s))
+		d.g = &s
 	case "del":
 		w.mustExec(w.a, fmt.Sprintf(`mutation { delete_Users(docID: %q) { _docID } }`, d.id))
 		d.deleted = true
@@ -365,8 +402,12 @@ func (w *world) write(wr Write) int {
 }
 
 func heads(n *hx.Node, docID string) []string {
-	hs := coreblock.NewHeadSet(datastore.HeadstoreFrom(n.DB.Rootstore()),
-		keys.HeadstoreDocKey{DocID: docID, FieldID: core.COMPOSITE_NAMESPACE})
+	var key keys.HeadstoreKey = keys.HeadstoreDocKey{DocID: docID, FieldID: core.COMPOSITE_NAMESPACE}
+	if docID == "" {
+		// collection-level heads; Users is the only branchable collection of the node
+		key = keys.NewHeadstoreColKey(0)
+	}
+	hs := coreblock.NewHeadSet(datastore.HeadstoreFrom(n.DB.Rootstore()), key)
 	cids, _, err := hs.List(n.Ctx)
 	if err != nil {
 		hx.Harnessf("heads of %s: %v", docID, err)
@@ -432,12 +473,6 @@ func (w *world) snapshot() snap {
 			}
 		default:
 			s.otherKeys = append(s.otherKeys, k)
-		}
-	}
-	for _, d := range w.docs {
-		if s.retryDocs[d.id] {
-			d.everRetry = true
-			w.info.set("retry-record-observed")
 		}
 	}
 	return s
@@ -525,7 +560,7 @@ func (w *world) slots() []int {
 // behind lists the slots for which B lacks A's heads, split by whether a retry record exists.
 func (w *world) behind(s snap) (pending, orphan []int) {
 	for _, slot := range w.slots() {
-		if eq(s.a[slot], s.b[slot]) {
+		if eq(s.a[slot], s.b[slot]) || w.docs[slot].exempt {
 			continue
 		}
 		if s.retryDocs[w.docs[slot].id] {
@@ -568,6 +603,11 @@ func (w *world) converge(full bool, where string) *hx.Failure {
 	start := time.Now()
 	var last string
 	lastChange := time.Now()
+	// retry-ineffective bookkeeping: the same documents pending with the same heads while the
+	// retry round counter advances
+	var lastPend string
+	pendSince := time.Now()
+	pendRounds0 := 0
 	for {
 		s := w.snapshot()
 		fp := s.fingerprint()
@@ -594,6 +634,24 @@ func (w *world) converge(full bool, where string) *hx.Failure {
 		if len(orphan) == 0 && len(pending) > 0 && frozen >= stallWindow {
 			return w.confirmStalled(s, pending, where)
 		}
+		if len(orphan) == 0 && len(pending) > 0 {
+			pk := s.pendingKey(w, pending)
+			rounds := 0
+			if s.retryID != nil {
+				rounds = s.retryID.NumRetries
+			}
+			if pk != lastPend || rounds < pendRounds0 {
+				lastPend, pendSince, pendRounds0 = pk, time.Now(), rounds
+			}
+			if rounds-pendRounds0 >= ineffectiveRounds && time.Since(pendSince) >= quietWindow {
+				if f := w.confirmIneffective(s, pending, pk, rounds-pendRounds0, where); f != nil {
+					return f
+				}
+				lastPend = ""
+			}
+		} else {
+			lastPend = ""
+		}
 		if time.Since(start) > eventualBudget && len(orphan) == 0 {
 			hx.Harnessf("C15 inconclusive at %s: B still lacks documents after %v while retry records exist and the bookkeeping keeps changing (last change %v ago)\n%s%s",
 				where, eventualBudget, frozen.Round(time.Millisecond), s.describe(w), w.tr)
@@ -603,17 +661,84 @@ func (w *world) converge(full bool, where string) *hx.Failure {
 		}
 		if sleepTick() {
 			lastChange = time.Now()
+			lastPend = ""
 		}
 	}
+}
+
+// pendingKey renders what must stay the same for "the retry rounds achieve nothing".
+func (s snap) pendingKey(w *world, pending []int) string {
+	var sb strings.Builder
+	for _, slot := range pending {
+		fmt.Fprintf(&sb, "%d:%v|%v;", slot, s.a[slot], s.b[slot])
+	}
+	rd := []string{}
+	for k := range s.retryDocs {
+		rd = append(rd, k)
+	}
+	sort.Strings(rd)
+	fmt.Fprintf(&sb, "%q", rd)
+	return sb.String()
+}
+
+// confirmIneffective: retry records exist, B is behind for them, and the retry round counter has
+// advanced ineffectiveRounds times without any change to what is pending. A canary update then has
+// to reach B (the push path works), two more rounds have to pass, and the pending set must still
+// be the same: the retry mechanism runs but cannot deliver. Without the canary the run is inconclusive.
+func (w *world) confirmIneffective(s0 snap, pending []int, pk string, rounds int, where string) *hx.Failure {
+	w.tr.f("%s: slots %v pending unchanged over %d retry rounds; sending canary", where, pending, rounds)
+	if !w.canary() {
+		hx.Harnessf("C15 inconclusive at %s: retries achieve nothing and the canary did not reach B within %v: cannot tell a dead link from an ineffective retry\n%s%s",
+			where, canaryBudget, s0.describe(w), w.tr)
+	}
+	base := -1
+	t0 := time.Now()
+	var s1 snap
+	for {
+		s1 = w.snapshot()
+		p1, o1 := w.behind(s1)
+		if len(o1) > 0 || s1.pendingKey(w, p1) != pk {
+			w.tr.f("%s: state moved during confirmation", where)
+			return nil
+		}
+		if s1.retryID == nil {
+			return nil // handled as retry-stalled by the caller's loop
+		}
+		if base < 0 || s1.retryID.NumRetries < base {
+			base = s1.retryID.NumRetries
+		}
+		if s1.retryID.NumRetries-base >= 2 {
+			break
+		}
+		if time.Since(t0) > stallWindow {
+			return nil // no more rounds: the stalled rule decides
+		}
+		time.Sleep(pollEvery)
+	}
+	sig, why := "C15/retry-ineffective", ""
+	onlyCol := len(pending) == 1 && pending[0] == colSlot
+	onlyEmptyRecord := len(s1.retryDocs) == 1 && s1.retryDocs[""]
+	if w.c.Branchable && onlyCol && onlyEmptyRecord {
+		// Fully explained: the only thing B lacks is the collection-level commit DAG, and the only
+		// retry record left is the one written for the collection-level update event, whose DocID is
+		// empty: its key "/rep/retry/doc/<peer>" has no document part.
+		sig = sigCollectionRetry
+		why = "the collection is branchable; the record left over is the one for the collection-level commit (empty DocID), key " +
+			keys.REPLICATOR_RETRY_DOC + "/" + w.b.info.ID.String() + "\n"
+	}
+	return hx.Failf(sig,
+		"%s: B's peer is up and reachable (a canary update written on A reached B), A holds retry records and ran %d+2 retry rounds, "+
+			"but what is pending did not change: slots %v stay behind and their retry records stay. The retry loop spins without delivering.\n%sstate:\n%strace:\n%s",
+		where, rounds, pending, why, s1.describe(w), w.tr)
 }
 
 // canary writes to the canary document on A and waits until B has that head:
 // the update event passes A's peer loop after every earlier update event, and
 // the push uses the same connection as every other push to B.
 func (w *world) canary() (arrived bool) {
-	d := w.docs[-1]
+	d := w.docs[canarySlot]
 	w.seq++
-	w.mustExec(w.a, fmt.Sprintf(`mutation { update_Users(docID: %q, input: {n: %d}) { _docID } }`, d.id, 1000+w.seq))
+	w.mustExec(w.a, fmt.Sprintf(`mutation { update_Probe(docID: %q, input: {n: %d}) { _docID } }`, d.id, 1000+w.seq))
 	d.n = 1000 + w.seq
 	w.tr.f("canary write n=%d", d.n)
 	t0 := time.Now()
@@ -636,7 +761,7 @@ func (w *world) confirmOrphan(s0 snap, orphan []int, where string) *hx.Failure {
 	_, orphan1 := w.behind(s1)
 	still := []int{}
 	for _, slot := range orphan {
-		if slot == -1 {
+		if slot == canarySlot {
 			continue
 		}
 		for _, o := range orphan1 {
@@ -647,11 +772,11 @@ func (w *world) confirmOrphan(s0 snap, orphan []int, where string) *hx.Failure {
 	}
 	if len(still) == 0 {
 		// only the canary itself was orphaned, or things moved
-		onlyCanary := len(orphan) == 1 && orphan[0] == -1
+		onlyCanary := len(orphan) == 1 && orphan[0] == canarySlot
 		if onlyCanary {
 			for _, o := range orphan1 {
-				if o == -1 {
-					still = append(still, -1)
+				if o == canarySlot {
+					still = append(still, canarySlot)
 				}
 			}
 		}
@@ -662,12 +787,22 @@ func (w *world) confirmOrphan(s0 snap, orphan []int, where string) *hx.Failure {
 	}
 	slot := still[0]
 	d := w.docs[slot]
+	// The canary's update event passed A's peer loop after every earlier one. Either outcome that
+	// shows it was processed (arrived, or recorded for retry) shows the earlier pushes are over;
+	// if neither happened within canaryBudget A's peer does not process update events at all.
+	canaryWhat := "reached B through the same push path"
+	if !arrived {
+		if s1.retryDocs[w.docs[canarySlot].id] {
+			canaryWhat = "failed to reach B and was recorded for retry (A does process update events)"
+		} else {
+			canaryWhat = fmt.Sprintf("neither reached B nor was recorded for retry within %v (A's peer processes no update events)", canaryBudget)
+		}
+	}
 	sig, why := w.diagnoseOrphan(slot, s1)
 	return hx.Failf(sig,
 		"%s: B's peer is up, B lacks A's head of document %s (slot %d) and A holds no retry record for it; nothing will ever deliver it. "+
 			"State unchanged for %v, then a canary update written on A %s, then unchanged after another %v.\n%s\nstate:\n%strace:\n%s",
-		where, d.id, slot, quietWindow, map[bool]string{true: "reached B through the same push path", false: "did not reach B either"}[arrived],
-		rereadDelay, why, s1.describe(w), w.tr)
+		where, d.id, slot, quietWindow, canaryWhat, rereadDelay, why, s1.describe(w), w.tr)
 }
 
 // diagnoseOrphan decides which signature explains a lost obligation.
@@ -679,8 +814,13 @@ func (w *world) diagnoseOrphan(slot int, s snap) (sig, why string) {
 	}
 	seen := w.btap.forCid(d.id, ah[0])
 	headVer := w.headSchemaVersion(d.id, ah[0])
+	if len(seen) == 0 && w.c.APubSubOff {
+		// Fully explained: A's peer runs with pubsub disabled, and net.NewPeer subscribes to update
+		// events (the only trigger of pushes to replicators) inside "if options.EnablePubSub".
+		return sigPubSubOff, fmt.Sprintf("A's peer runs with pubsub disabled; B never received a merge request for A's head %s", ah[0])
+	}
 	if len(seen) == 0 {
-		return "C15/obligation-lost/never-received", fmt.Sprintf("B never received a merge request for A's head %s (everRetry=%v)", ah[0], d.everRetry)
+		return "C15/obligation-lost/never-received", fmt.Sprintf("B never received a merge request for A's head %s (retry record seen earlier: %v)", ah[0], w.sawRetry(d.id))
 	}
 	allDropped, wrongID := true, false
 	for _, m := range seen {
@@ -692,8 +832,8 @@ func (w *world) diagnoseOrphan(slot int, s snap) (sig, why string) {
 		}
 	}
 	desc := fmt.Sprintf("B received %d merge request(s) for A's head %s: %+v; collection id (schema root) is %s, head block schema version is %s, retry record seen earlier: %v",
-		len(seen), ah[0], seen, w.root, headVer, d.everRetry)
-	if allDropped && wrongID && d.everRetry && headVer != w.root {
+		len(seen), ah[0], seen, w.root, headVer, w.sawRetry(d.id))
+	if allDropped && wrongID && headVer != w.root {
 		ok := true
 		for _, m := range seen {
 			if m.CollectionID != headVer {
@@ -701,9 +841,11 @@ func (w *world) diagnoseOrphan(slot int, s snap) (sig, why string) {
 			}
 		}
 		if ok {
-			// fully explained: the retried push named the block's schema version id as collection id,
-			// the receiver acknowledged, could not resolve the collection and dropped the merge.
-			return "C15/obligation-lost/retry-push-names-schema-version-as-collection", desc
+			// Fully explained: every request B got for this head names the block's schema version id
+			// as collection id. A first push carries the collection id (schema root), only retryDoc
+			// derives it from the block; B acknowledged, could not resolve the collection
+			// and dropped the merge, and A cleared the retry record.
+			return sigRetryCollectionID, desc
 		}
 	}
 	if allDropped {
@@ -754,7 +896,7 @@ func (w *world) confirmStalled(s0 snap, pending []int, where string) *hx.Failure
 func (s snap) fingerprintNoCanary() string {
 	c := snap{a: map[int][]string{}, b: map[int][]string{}, retryDocs: s.retryDocs, retryID: s.retryID}
 	for k, v := range s.a {
-		if k != -1 {
+		if k != canarySlot {
 			c.a[k] = v
 			c.b[k] = s.b[k]
 		}
@@ -764,12 +906,12 @@ func (s snap) fingerprintNoCanary() string {
 
 // ---------------------------------------------------------------- content comparison
 
-func (w *world) dump(n *pnode, withE bool) map[string]string {
-	e := ""
-	if withE {
-		e = " e"
+func (w *world) dump(n *pnode, patches int, cmpPatches int) map[string]string {
+	extra := ""
+	for i := 0; i < patches && i < len(patchFields); i++ {
+		extra += " " + patchFields[i]
 	}
-	r := n.Exec(`query { Users(showDeleted: true) { _docID _deleted name n c` + e + ` } }`)
+	r := n.Exec(`query { Users(showDeleted: true) { _docID _deleted name n c` + extra + ` } }`)
 	if !r.OK() {
 		hx.Harnessf("dump on %s: %s %s", n.name, r.Err(), r.Panic)
 	}
@@ -777,43 +919,67 @@ func (w *world) dump(n *pnode, withE bool) map[string]string {
 	for _, row := range r.Rows("Users") {
 		id, _ := row["_docID"].(string)
 		delete(row, "_docID")
-		if !withE {
-			row["e"] = nil
+		for i, f := range patchFields {
+			if i >= cmpPatches {
+				delete(row, f)
+			} else if _, ok := row[f]; !ok {
+				row[f] = nil
+			}
 		}
 		out[id] = hx.Canon(row)
 	}
 	return out
 }
 
-func (w *world) expected(d *mdoc) string {
-	row := map[string]any{"_deleted": d.deleted, "name": d.name, "n": d.n, "c": d.c, "e": nil}
-	if d.e != nil {
-		row["e"] = *d.e
-	}
+func (w *world) expected(d *mdoc, cmpPatches int) string {
+	row := map[string]any{"_deleted": d.deleted, "name": d.name, "n": d.n, "c": d.c}
 	if !d.cSet {
 		row["c"] = nil
+	}
+	if cmpPatches >= 1 {
+		row["e"] = nil
+		if d.e != nil {
+			row["e"] = *d.e
+		}
+	}
+	if cmpPatches >= 2 {
+		row["g"] = nil
+		if d.g != nil {
+			row["g"] = *d.g
+		}
 	}
 	return hx.Canon(hx.Normalize(row))
 }
 
 // compareContent checks B's documents against the model (and A's, as a harness sanity check).
 func (w *world) compareContent(slots []int, where string) *hx.Failure {
-	ad := w.dump(w.a, w.patchd)
-	bd := w.dump(w.b, w.patchd)
+	// added fields are compared only when every patch reached both nodes together
+	cmp := w.aPatches
+	if w.unevenPatch {
+		cmp = 0
+	}
+	ad := w.dump(w.a, w.aPatches, w.aPatches)
+	bd := w.dump(w.b, w.bPatches, cmp)
+	real := 0
 	for _, slot := range slots {
-		d := w.docs[slot]
-		want := w.expected(d)
-		if ad[d.id] != want {
-			hx.Harnessf("model and A disagree on slot %d %s: A=%s model=%s\n%s", slot, d.id, ad[d.id], want, w.tr)
+		if slot < 0 || w.docs[slot].exempt {
+			continue // canary and collection-level DAG: heads only
 		}
+		real++
+		d := w.docs[slot]
+		if ad[d.id] != w.expected(d, w.aPatches) {
+			hx.Harnessf("model and A disagree on slot %d %s: A=%s model=%s\n%s", slot, d.id, ad[d.id], w.expected(d, w.aPatches), w.tr)
+		}
+		want := w.expected(d, cmp)
 		if bd[d.id] != want {
 			return hx.Failf("C15/content-differs-with-equal-heads",
 				"%s: B has A's heads of document %s (slot %d) but shows %s, A shows %s\ntrace:\n%s", where, d.id, slot, bd[d.id], want, w.tr)
 		}
 	}
-	if len(bd) > len(w.docs) {
-		return hx.Failf("C15/extra-document-on-b", "%s: B has %d documents, A wrote %d\ntrace:\n%s", where, len(bd), len(w.docs), w.tr)
+	if len(bd) > len(ad) {
+		return hx.Failf("C15/extra-document-on-b", "%s: B has %d documents, A has %d\ntrace:\n%s", where, len(bd), len(ad), w.tr)
 	}
+	_ = real
 	return nil
 }
 
@@ -829,7 +995,7 @@ func (w *world) pubsubFinal() *hx.Failure {
 	const perRound = 8 * time.Second
 	live := []int{}
 	for _, slot := range w.slots() {
-		if !w.docs[slot].deleted {
+		if slot >= 0 && !w.docs[slot].deleted {
 			live = append(live, slot)
 		}
 	}
@@ -902,6 +1068,12 @@ func (w *world) setReplicator() {
 		}
 	}()
 	defer w.a.DB.Events().Unsubscribe(sub)
+	for _, d := range w.docs {
+		if d.deleted {
+			d.exempt = true
+			w.info.set("doc-deleted-before-setreplicator")
+		}
+	}
 	w.tr.f("A.SetReplicator(B) (B up=%v)", w.b.up)
 	if err := w.a.N.Peer.SetReplicator(w.a.Ctx, w.b.info); err != nil {
 		hx.Harnessf("SetReplicator: %v", err)
@@ -914,17 +1086,25 @@ func (w *world) setReplicator() {
 	w.repSet = true
 }
 
-func (w *world) patch() {
-	if w.patchd {
+func (w *world) patch(aOnly bool) {
+	if w.aPatches >= len(patchFields) {
 		return
 	}
-	for _, n := range []*pnode{w.a, w.b} {
-		if err := n.DB.PatchSchema(n.Ctx, patchJSON, immutable.None[model.Lens](), true); err != nil {
-			hx.Harnessf("PatchSchema on %s: %v", n.name, err)
-		}
+	f := patchFields[w.aPatches]
+	if err := w.a.DB.PatchSchema(w.a.Ctx, patchJSON(f), immutable.None[model.Lens](), true); err != nil {
+		hx.Harnessf("PatchSchema on A: %v", err)
 	}
-	w.patchd = true
-	w.tr.f("schema patched on A and B (B up=%v)", w.b.up)
+	w.aPatches++
+	if aOnly || w.bPatches != w.aPatches-1 {
+		w.unevenPatch = true
+		w.tr.f("schema patch %d (add %s) on A only (B %s)", w.aPatches, f, w.bView)
+		return
+	}
+	if err := w.b.DB.PatchSchema(w.b.Ctx, patchJSON(f), immutable.None[model.Lens](), true); err != nil {
+		hx.Harnessf("PatchSchema on B: %v", err)
+	}
+	w.bPatches++
+	w.tr.f("schema patch %d (add %s) on A and B (B %s)", w.aPatches, f, w.bView)
 }
 
 // toggle closes or reopens B's peer, with the burst writes issued concurrently.
@@ -990,12 +1170,17 @@ func run(c Case, info *runInfo) *hx.Failure {
 	}
 	w := &world{c: c, tr: &trace{t0: time.Now()}, info: info, docs: map[int]*mdoc{}, bView: "up"}
 	info.trace = w.tr
-	w.a = bootPeerNode("A")
+	w.retrySeen = map[string]bool{}
+	if c.APubSubOff && c.Config != "rep" {
+		c.APubSubOff = false
+		w.c = c
+	}
+	w.a = bootPeerNode("A", !c.APubSubOff)
 	defer w.a.shutdown()
 	if c.Boot || c.Config == "pubsub" {
-		w.b = bootPeerNode("B", w.a.p2pAddr())
+		w.b = bootPeerNode("B", true, w.a.p2pAddr())
 	} else {
-		w.b = bootPeerNode("B")
+		w.b = bootPeerNode("B", true)
 	}
 	defer w.b.shutdown()
 	w.tr.f("A=%s %s  B=%s %s", w.a.info.ID, w.a.addr, w.b.info.ID, w.b.addr)
@@ -1005,10 +1190,20 @@ func run(c Case, info *runInfo) *hx.Failure {
 		if err != nil {
 			hx.Harnessf("AddSchema: %v", err)
 		}
-		w.root = cols[0].CollectionID
+		for _, col := range cols {
+			if col.Name == "Users" {
+				w.root = col.CollectionID
+			}
+		}
+	}
+	if w.root == "" {
+		hx.Harnessf("no Users collection")
 	}
 	w.atap = hx.NewEventTap(w.a.Node)
 	defer w.atap.Close()
+	stopSampler, samplerDone := make(chan struct{}), make(chan struct{})
+	go func() { defer close(samplerDone); w.sampleRetries(stopSampler) }()
+	defer func() { close(stopSampler); <-samplerDone }()
 	w.btap = newMergeTap(w.b.Node)
 	defer w.btap.close()
 
@@ -1024,8 +1219,11 @@ func run(c Case, info *runInfo) *hx.Failure {
 
 	// the canary document exists from the start; it is replicated like any other
 	{
-		r := w.mustExec(w.a, `mutation { create_Users(input: {name: "canary", n: 1000}) { _docID } }`)
-		w.docs[-1] = &mdoc{slot: -1, id: r.Rows("create_Users")[0]["_docID"].(string), name: "canary", n: 1000}
+		r := w.mustExec(w.a, `mutation { create_Probe(input: {n: 1000}) { _docID } }`)
+		w.docs[canarySlot] = &mdoc{slot: canarySlot, id: r.Rows("create_Probe")[0]["_docID"].(string), name: "canary", n: 1000}
+		if c.Branchable {
+			w.docs[colSlot] = &mdoc{slot: colSlot, id: "", name: "collection-level commits"}
+		}
 	}
 
 	for i, op := range c.Ops {
@@ -1036,7 +1234,7 @@ func run(c Case, info *runInfo) *hx.Failure {
 				w.waitDelivered(slot)
 			}
 		case "patch":
-			w.patch()
+			w.patch(op.AOnly)
 		case "down", "up":
 			w.toggle(op)
 		case "setrep":
@@ -1081,16 +1279,52 @@ func run(c Case, info *runInfo) *hx.Failure {
 	}
 	w.tr.f("converged %v after the last event", time.Since(t0).Round(time.Millisecond))
 	if w.anyRetry() {
+		info.set("retry-record-observed")
 		info.set("recovered-through-retry")
 	}
 	return w.compareContent(w.slots(), "final")
 }
 
 func (w *world) anyRetry() bool {
-	for _, d := range w.docs {
-		if d.everRetry {
-			return true
+	w.retryMu.Lock()
+	defer w.retryMu.Unlock()
+	return len(w.retrySeen) > 0
+}
+
+func (w *world) sawRetry(docID string) bool {
+	w.retryMu.Lock()
+	defer w.retryMu.Unlock()
+	return w.retrySeen[docID]
+}
+
+// sampleRetries records which documents ever had a retry-doc record (diagnosis and labels only).
+func (w *world) sampleRetries(stop <-chan struct{}) {
+	ps := datastore.PeerstoreFrom(w.a.DB.Rootstore())
+	prefix := keys.REPLICATOR_RETRY_DOC + "/" + w.b.info.ID.String()
+	for {
+		select {
+		case <-stop:
+			return
+		case <-time.After(40 * time.Millisecond):
 		}
+		it, err := ps.Iterator(w.a.Ctx, corekv.IterOptions{Prefix: []byte(prefix), KeysOnly: true})
+		if err != nil {
+			return
+		}
+		for {
+			ok, err := it.Next()
+			if err != nil || !ok {
+				break
+			}
+			id := strings.TrimPrefix(strings.TrimPrefix(string(it.Key()), prefix), "/")
+			w.retryMu.Lock()
+			if !w.retrySeen[id] {
+				w.retrySeen[id] = true
+				w.info.set("retry-record-observed")
+				w.tr.f("retry record appeared for %q", id)
+			}
+			w.retryMu.Unlock()
+		}
+		_ = it.Close()
 	}
-	return false
 }
